@@ -596,21 +596,20 @@ func (r *setRun) report(full, n *Node, mode string, p EvalParams, d *Diff, want,
 		hn = &k
 	}
 	sig := kind + "|" + mode + "|" + hn.Head() + "|" + hn.Shape()
-	if mode != "instant" && rangeBelowStep(min, p) {
-		// data shape: windows of a range function do not tile the range query (range < step)
-		sig = "range<step|" + sig
-	}
-	if r.nanInfInWindow(min, mode, p) {
-		// data shape: a NaN or +/-Inf sample lies in a window the expression reads
-		sig = "nan-inf-in-window|" + sig
-	}
-	if windowCovers(min, mode, p, r.set.Seam) {
-		// data shape: a window covers the flush point (older samples in a file, newer in the memtable)
-		sig = "file-memtable-seam|" + sig
-	}
-	if twoShards(min, mode, p) {
-		// data shape: some selector's window reaches across a shard-group boundary
+	// one data-shape prefix, the most specific input class first
+	switch {
+	case twoShards(min, mode, p):
+		// some selector's window reaches across a shard-group boundary
 		sig = "two-shard-window|" + sig
+	case windowCovers(min, mode, p, r.set.Seam):
+		// a window covers the flush point (older samples in a file, newer in the memtable)
+		sig = "file-memtable-seam|" + sig
+	case mode != "instant" && rangeBelowStep(min, p):
+		// windows of a range function do not tile the range query (range < step)
+		sig = "range<step|" + sig
+	case r.nanInfInWindow(min, mode, p):
+		// a NaN or +/-Inf sample lies in a window the expression reads
+		sig = "nan-inf-in-window|" + sig
 	}
 	ms := map[string]struct{}{}
 	min.metrics(ms)
@@ -741,6 +740,9 @@ func replay(c *vf.Ctx, bin string) {
 				set.End = t
 			}
 		}
+	}
+	if w.SetT0 != 0 && w.SetEnd != 0 {
+		set.T0, set.End = w.SetT0, w.SetEnd // same request windows and flush point as the original run
 	}
 	box, err := startServer(c, bin, 0)
 	if err != nil {
